@@ -15,6 +15,12 @@ def run(tier, seed):
     for c_ in zmat_probes(rng):
         if c_['spec']['family'].startswith('probe-taper-grounded') and c_['spec']['media'] is not None:
             chk.notes.setdefault('failing_specs', []).append(json.loads(json.dumps(c_['spec'])))
+    # feet a rounding error below / above the plane (0.3 - 0.1 - 0.2 = -2.8e-17): still standing on it
+    for z_ in (-2.8e-17, -1e-9, 5.6e-17):
+        chk.notes.setdefault('failing_specs', []).append(dict(f=30.0, media=[], family='probe-foot-rounding', tagmode='none', sources=[], loads=[],
+            wires=[gen.wire(6, [0.2, 0.1, z_], [0.2, 0.1, 2.3], 0.001)]))
+        chk.notes.setdefault('failing_specs', []).append(dict(f=30.0, media=[], family='probe-foot-rounding-invl', tagmode='none', sources=[], loads=[],
+            wires=[gen.wire(5, [0.3, 0.0, 2.0], [0.3, 0.0, z_], 0.001), gen.wire(4, [0.3, 0.0, 2.0], [2.0, 0.5, 2.0], 0.001)]))
     # the weight 2 of grounded excitations (rhs_entry) and the far-field scalars the theorems use are evaluated against the real
     # code here too: stages lin and ff
     import stage_lin, stage_ff
